@@ -71,3 +71,32 @@ def outcome(fn, *a, **kw):
         return ("exc", "RecursionError", str(ex)[:200])
     except Exception as ex:
         return ("exc", type(ex).__name__, str(ex)[:300])
+
+
+# -- budgeted execution (logical steps, never wall-clock) -----------------------------------
+_MON = None
+WALK_FILES = ("walkers.py", "visitor.py", "backend.py", "result.py", "used_qubit_visitor.py")
+
+
+def step_monitor():
+    global _MON
+    if _MON is None:
+        from . import monitors
+
+        _MON = monitors.StepMonitor(files=WALK_FILES)
+        _MON.start(lines=True)
+    return _MON
+
+
+def budgeted(fn, budget, *a, **kw):
+    """outcome() under a step budget counted in the tree-walking modules:
+    ('ok', value, steps) | ('jaqal'|'exc', type, msg, steps) | ('budget', steps)."""
+    mon = step_monitor()
+    st, v, steps = mon.run(lambda: fn(*a, **kw), budget)
+    if st == "ok":
+        return ("ok", v, steps)
+    if st == "budget":
+        return ("budget", steps)
+    if isinstance(v, JaqalError):
+        return ("jaqal", type(v).__name__, str(v), steps)
+    return ("exc", type(v).__name__, str(v)[:300], steps)
